@@ -67,6 +67,49 @@ Theorem C06_v5_profile_independent : forall t d, F5.dec_async Debug t d = F5.dec
 Proof. exact C06_v5_async_profile_independent. Qed.
 Print Assumptions C06_v5_profile_independent.
 
+(* ... and therefore under EVERY delivery schedule of the same bytes (C05) *)
+Theorem C06_v3_accept_agree_any_schedule : forall prof l t n body p,
+  rr_res V3.packet (F3.poll_drive prof l t) = Some (Ok (n, body, p)) ->
+  exists rest, F3.dec_async prof t (bytes_of l) = ROk p rest /\ F3.dec_block prof (bytes_of l) = BOk p /\
+               len (bytes_of l) = n + len rest.
+Proof.
+  intros prof l t n body p H.
+  destruct (FrontAgree.C05_v3_same_as_one_read prof l t) as [E _]. rewrite E in H.
+  exact (FrontAgree.C06_v3_accept_agree prof (bytes_of l) t n body p H).
+Qed.
+Print Assumptions C06_v3_accept_agree_any_schedule.
+Theorem C06_v3_reject_agree_any_schedule : forall prof l t e,
+  rr_res V3.packet (F3.poll_drive prof l t) = Some (Err e) -> e <> InvalidRemainingLength -> is_io e = false ->
+  F3.dec_async prof t (bytes_of l) = RErr e /\ F3.dec_block prof (bytes_of l) = BErr e.
+Proof.
+  intros prof l t e H Hn Hio.
+  destruct (FrontAgree.C05_v3_same_as_one_read prof l t) as [E _]. rewrite E in H.
+  exact (FrontAgree.C06_v3_reject_agree prof (bytes_of l) t e H Hn Hio).
+Qed.
+Print Assumptions C06_v3_reject_agree_any_schedule.
+
+(* ---------------- v5 ---------------- *)
+(* ... and therefore under EVERY delivery schedule of the same bytes (C05) *)
+Theorem C06_v5_accept_agree_any_schedule : forall prof l t n body p,
+  rr_res V5.packet (F5.poll_drive prof l t) = Some (Ok (n, body, p)) ->
+  exists rest, F5.dec_async prof t (bytes_of l) = ROk p rest /\ F5.dec_block prof (bytes_of l) = BOk p /\
+               len (bytes_of l) = n + len rest.
+Proof.
+  intros prof l t n body p H.
+  destruct (FrontAgree.C05_v5_same_as_one_read prof l t) as [E _]. rewrite E in H.
+  exact (FrontAgree.C06_v5_accept_agree prof (bytes_of l) t n body p H).
+Qed.
+Print Assumptions C06_v5_accept_agree_any_schedule.
+Theorem C06_v5_reject_agree_any_schedule : forall prof l t e,
+  rr_res V5.packet (F5.poll_drive prof l t) = Some (Err e) -> e <> InvalidRemainingLength -> is_io e = false ->
+  F5.dec_async prof t (bytes_of l) = RErr e /\ F5.dec_block prof (bytes_of l) = BErr e.
+Proof.
+  intros prof l t e H Hn Hio.
+  destruct (FrontAgree.C05_v5_same_as_one_read prof l t) as [E _]. rewrite E in H.
+  exact (FrontAgree.C06_v5_reject_agree prof (bytes_of l) t e H Hn Hio).
+Qed.
+Print Assumptions C06_v5_reject_agree_any_schedule.
+
 Example ex_C06 :
   rr_res V3.packet (F3.poll1 Debug [48; 5; 0; 1; 97; 120; 121; 192; 0] TEof)
     = Some (Ok (7, [0; 1; 97; 120; 121], V3.Publish {| V3.p_dup := false; V3.p_retain := false; V3.p_qospid := QP0;
